@@ -38,8 +38,8 @@ ASSUMPTIONS = [
     'limiters (PQ voltage band, PV reactive limits) enter the model as their status flags read from the real run; '
     'the theorems about loads and set-points are for the in-band state (zi=1, zl=zu=0), generated networks stay in it',
     'islanded-bus detection and address allocation are C12 / C10; here they are inputs checked by the correspondence',
-    'line_to_side_is_pi_model_partial: the to-bus equations use the from-side shunt (Lean counterexample '
-    'line_to_side_counterexample); every network theorem that needs the to side carries the hypothesis g1=g2, b1=b2',
+    'the to-bus equations of Line used the from-side shunt on the pinned tree (repaired, see known_findings.json '
+    'line-to-side-shunt): the network theorems now hold for asymmetric end shunts too; the oracle key stays armed',
 ]
 CORPUS = os.path.join(C.ROOT, 'corpus', 'c01')
 EPS = 1e-8
